@@ -27,7 +27,7 @@ pub fn spec() -> CheckSpec {
     CheckSpec {
         id: "C07",
         level: "exploration",
-        rule: "proptest cases over (previous EpochExt, uncle count, duration, previous hash rate, compact target, consensus parameters) driven through Consensus::next_epoch_ext with a mock EpochProvider and compared with an exact big-integer evaluation of the RFC 0020 formulas; plus issuance sums, compact/target/difficulty conversions, PoW verify and epoch-field succession. Non-trivial = the case hits a length clamp or a hash-rate clamp, or a non-zero reward remainder, or an extreme/boundary compact encoding, or (pow) lands on either side of the target, or (successor) crosses an epoch boundary / is a mutated non-successor; distinct = hash of the whole case",
+        rule: "proptest cases over (previous EpochExt, uncle count, duration, previous hash rate, compact target, consensus parameters) driven through Consensus::next_epoch_ext with a mock EpochProvider and compared with an exact big-integer evaluation of the RFC 0020 formulas; plus issuance sums, compact/target/difficulty conversions, PoW verify and epoch-field succession. Non-trivial = the case hits a length clamp or a hash-rate clamp, or a non-zero reward remainder, or an extreme/boundary compact encoding, or (pow) lands on either side of the target, or (successor) crosses an epoch boundary / is a mutated non-successor; distinct = hash of the whole case A node-level family (tree-epochs) builds block trees with long rival branches, uncles and varied timestamps under dynamic-difficulty specs with 3/4/7-block genesis epochs, delivers them to a real node and compares the epoch record the node stores for EVERY block (main chain and side branches) with the exact evaluation of the formulas on the statistics of the block's own branch (uncle count and duration measured from the previous epoch's last block on that branch); the same comparison for the epochs the harness's tree obtains from Consensus::next_epoch_ext over a tree-backed provider; non-trivial there = a side-branch block lies in an epoch that began after its branch left the main chain.",
         assumptions: &[
             "exact agreement of next_epoch_ext with the RFC formula is demanded only where a conservative bit count shows that every intermediate product fits 256 bits (numext U256 arithmetic is checked and panics on overflow); outside (`extreme-domain`, difficulty > ~2^160, unreachable with real proof of work) only bounds / difficulty >= 1 are checked and U256 overflow panics are counted under a label",
             "length bounds are demanded only when [max(300, len/2), min(1800, 2 len)] is non-empty (previous length in 150..=3600)",
@@ -1750,6 +1750,15 @@ fn run(ctx: &Ctx) {
     ctx.run_prop("pow", ctx.cases(800_000, 8_000_000), pow_strategy(), prop_pow);
     ctx.run_prop("successor", ctx.cases(1_000_000, 10_000_000), succ_strategy(), prop_successor);
     ctx.run_prop("rational", ctx.cases(600_000, 6_000_000), rat_strategy(), prop_rational);
+    // block trees on a real node: the stored epoch record of every block, side branches included
+    ctx.shrink_iters.set(60);
+    ctx.run_prop(
+        "tree-epochs",
+        ctx.cases(160, 2400),
+        super::c07_tree::strategy(ctx.tier.pick(44, 90)),
+        super::c07_tree::prop,
+    );
+    ctx.shrink_iters.set(4096);
     // exhaustive over the exponent byte x boundary mantissas (split over the workers)
     for e in 0u32..=0xff {
         if e as usize % ctx.nworkers != ctx.worker {
@@ -1770,6 +1779,7 @@ fn replay(ctx: &Ctx, sub: &str, v: &Value) -> Verdict {
     install_hook();
     let mut st = ctx.stats.borrow_mut();
     match sub {
+        "tree-epochs" => super::c07_tree::prop(&from_case(v)?, &mut st),
         "oracle-selftest" => prop_selftest(&from_case(v)?, &mut st),
         "epoch-difficulty" => prop_epoch_difficulty(&from_case(v)?, &mut st),
         "epoch-bookkeeping" => prop_epoch_bookkeeping(&from_case(v)?, &mut st),
